@@ -57,8 +57,28 @@ struct V {
     in_dialect_impl: bool,
     items: Vec<Item>,
     dialect_of_uses: usize,
+    /// local variables of the current function bound to a located token (`let t = self.peek_token()`)
+    twl_locals: std::collections::HashSet<String>,
 }
+/// methods of Parser that return a TokenWithLocation
+const TWL_CALLS: &[&str] = &["peek_token", "next_token", "peek_nth_token", "peek_token_no_skip", "next_token_no_skip"];
 impl V {
+    /// does this expression denote a located token (as opposed to a bare Token)?  `==` between two of them is the
+    /// derived PartialEq of TokenWithLocation, which compares the location too
+    fn is_twl(&self, e: &syn::Expr) -> bool {
+        match e {
+            syn::Expr::Paren(p) => self.is_twl(&p.expr),
+            syn::Expr::Group(p) => self.is_twl(&p.expr),
+            syn::Expr::Reference(r) => self.is_twl(&r.expr),
+            syn::Expr::Unary(u) => matches!(u.op, syn::UnOp::Deref(_)) && self.is_twl(&u.expr),
+            syn::Expr::MethodCall(m) => {
+                let n = m.method.to_string();
+                TWL_CALLS.contains(&n.as_str()) || (matches!(n.as_str(), "clone" | "to_owned" | "borrow") && self.is_twl(&m.receiver))
+            }
+            syn::Expr::Path(p) => p.path.get_ident().map(|i| self.twl_locals.contains(&i.to_string())).unwrap_or(false),
+            _ => false,
+        }
+    }
     fn push(&mut self, kind: &str, detail: &str, text: String, line: usize, extra: Value) {
         self.items.push(Item { file: self.file.clone(), func: self.func.clone(), kind: kind.into(), detail: detail.into(), text, line, extra });
     }
@@ -105,12 +125,14 @@ impl<'ast> Visit<'ast> for V {
     fn visit_item_fn(&mut self, f: &'ast syn::ItemFn) {
         if has_cfg_test(&f.attrs) { return; }
         let old = std::mem::replace(&mut self.func, f.sig.ident.to_string());
+        self.twl_locals.clear();
         visit::visit_item_fn(self, f);
         self.func = old;
     }
     fn visit_impl_item_fn(&mut self, f: &'ast syn::ImplItemFn) {
         if has_cfg_test(&f.attrs) { return; }
         let old = std::mem::replace(&mut self.func, f.sig.ident.to_string());
+        self.twl_locals.clear();
         visit::visit_impl_item_fn(self, f);
         self.func = old;
     }
@@ -136,7 +158,16 @@ impl<'ast> Visit<'ast> for V {
                 }
             }
         }
+        if matches!(e.op, Eq(_) | Ne(_)) && self.is_twl(&e.left) && self.is_twl(&e.right) {
+            self.push("location", "compare", short(e), line_of(e), json!({"how": "TokenWithLocation == TokenWithLocation"}));
+        }
         visit::visit_expr_binary(self, e);
+    }
+    fn visit_local(&mut self, l: &'ast syn::Local) {
+        if let (syn::Pat::Ident(pi), Some(init)) = (&l.pat, &l.init) {
+            if self.is_twl(&init.expr) { self.twl_locals.insert(pi.ident.to_string()); }
+        }
+        visit::visit_local(self, l);
     }
     fn visit_expr_reference(&mut self, e: &'ast syn::ExprReference) {
         if e.mutability.is_some() {
@@ -296,7 +327,7 @@ pub fn inventory(repo: &str) -> Value {
         let stem = format!("{}/{}", f.parent().unwrap().file_name().unwrap().to_string_lossy(), f.file_stem().unwrap().to_string_lossy());
         match syn::parse_file(&src) {
             Ok(file) => {
-                let mut v = V { file: stem.clone(), func: "<module>".into(), in_dialect_impl: false, items: vec![], dialect_of_uses: 0 };
+                let mut v = V { file: stem.clone(), func: "<module>".into(), in_dialect_impl: false, items: vec![], dialect_of_uses: 0, twl_locals: Default::default() };
                 v.visit_file(&file);
                 items.extend(v.items);
                 dialect_of_uses += v.dialect_of_uses;
